@@ -46,6 +46,10 @@ func makeDepGraph(program Program) depGraph {
 		s := rule.Head.Predicate
 		dep.initNode(s)
 		for _, premise := range rule.Premises {
+			if tl, ok := premise.(ast.TemporalLiteral); ok {
+				// A mention inside a temporally annotated literal counts like any other.
+				premise = tl.Literal
+			}
 			switch p := premise.(type) {
 			case ast.Atom:
 				if _, ok := builtin.Predicates[p.Predicate]; ok {
